@@ -55,11 +55,17 @@ def is_subdomain_sub(x):
         return True
     if x[0] == "method" and x[1] == "sub" and pat_ok(x[2]):
         return True
+    op = F.regex_op(x)
+    if op is not None and op[1] == "sub" and op[0] in (SUB_RE, SUB_AMP_RE):
+        return True
     return False
 
 
 def sub_patterns(x):
     """set of pattern globals possibly used by a subdomain-sub node, and its replacement term"""
+    op = F.regex_op(x)
+    if op is not None and x[0] == "call" and x[1] != "re.sub":
+        return {op[0]}, op[2][0]
     p = x[2][0] if x[0] == "call" else x[2]
     repl = x[2][1] if x[0] == "call" else x[3][0]
     out = set()
@@ -89,7 +95,13 @@ def host_order(term, leaf_pred):
     if not subs or not slices:
         return None
     # is some slice below (an operand of) some sub?
-    amp_below_sub = any(F.find_nodes(s[2][2] if s[0] == "call" else s[3][1], is_amp_prefix_slice, data_only=True) for s in subs if (len(s[2]) >= 3 if s[0] == "call" else len(s[3]) >= 2))
+    def subject(s):
+        if s[0] == "call" and s[1] == "re.sub":
+            return s[2][2] if len(s[2]) >= 3 else None
+        if s[0] == "call":
+            return s[2][1] if len(s[2]) >= 2 else None
+        return s[3][1] if len(s[3]) >= 2 else None
+    amp_below_sub = any(F.find_nodes(subject(s), is_amp_prefix_slice, data_only=True) for s in subs if subject(s) is not None)
     sub_below_amp = any(F.find_nodes(sl[1], is_subdomain_sub, data_only=True) for sl in slices)
     if amp_below_sub and not sub_below_amp:
         return "amp-first"
@@ -100,3 +112,74 @@ def host_order(term, leaf_pred):
 
 def regex_of(ctx, qual):
     return U.regex_const(ctx, qual)
+
+
+# ----------------------------------------------------------------------
+# the shared host helper (amp- prefix + irrelevant sub-domains, to a fixed point)
+# ----------------------------------------------------------------------
+HOST_HELPER = "ural.normalize_url.strip_irrelevant_parts_from_hostname"
+
+
+def is_host_helper(x):
+    return x[0] in ("call", "inl") and x[1] == HOST_HELPER
+
+
+def helper_kwargs(x):
+    """parameter name -> argument term of a call to the host helper"""
+    names = ("hostname", "normalize_amp", "strip_irrelevant_subdomains")
+    out = dict(zip(names, x[2]))
+    out.update(dict(x[3]))
+    return out
+
+
+def rule_host_helper(ctx, rule, labels, labels_amp):
+    """finite-domain interpretation of the helper against the fixed point of the two documented deletions"""
+    import itertools
+    from ..microeval import run_function
+    from ..srcmodel import Unknown
+    ctx.rule(rule, "host helper table: strip_irrelevant_parts_from_hostname, interpreted on every host of 1-4 labels over the label kinds {www, www2, m, mobile, amp, an 'amp-' prefixed label, an ordinary label, a look-alike label} followed by a registrable domain, for the 4 settings of (normalize_amp, strip_irrelevant_subdomains), returns the fixed point of {remove a leading 'amp-' (when normalize_amp), remove every pinned irrelevant label (when strip_irrelevant_subdomains)}; whole labels only, nothing else touched, and applying it twice changes nothing")
+    repo = ctx.repo
+    nm = repo.mod("normalize_url")
+    ref = nm.func("strip_irrelevant_parts_from_hostname")
+    ctx.fn(ref.qualname)
+    site = nm.site(ref.node)
+
+    def reference(host, amp, subs):
+        lab = [l.lower() for l in (labels_amp if amp else labels)]
+        while True:
+            prev = host
+            if amp and host.startswith("amp-"):
+                host = host[4:]
+            if subs:
+                parts = host.split(".")
+                host = ".".join(p for i, p in enumerate(parts) if not (p.lower() in lab and i < len(parts) - 1))
+            if host == prev:
+                return host
+    kinds = ("www", "www2", "m", "mobile", "amp", "amp-a", "a", "forum-m", "wwwx")
+    n = 0
+    bad = None
+    for amp in (True, False):
+        for subs in (True, False):
+            for L in (0, 1, 2, 3):
+                for labs in itertools.product(kinds, repeat=L):
+                    host = ".".join(labs + ("lemonde.fr",))
+                    exp = reference(host, amp, subs)
+                    n += 1
+                    try:
+                        got = run_function(repo, ref, [host], {"normalize_amp": amp, "strip_irrelevant_subdomains": subs})
+                        again = run_function(repo, ref, [got], {"normalize_amp": amp, "strip_irrelevant_subdomains": subs}) if isinstance(got, str) else None
+                    except Unknown as e:
+                        ctx.undecided(rule, "strip_irrelevant_parts_from_hostname(%r): %s" % (host, e))
+                        return
+                    if got != exp or again != got:
+                        bad = (host, amp, subs, got, again, exp)
+                        break
+                if bad:
+                    break
+            if bad:
+                break
+        if bad:
+            break
+    ctx.ob(rule, "host-helper/table", bad is None,
+           "strip_irrelevant_parts_from_hostname(%r, normalize_amp=%s, strip_irrelevant_subdomains=%s) gives %r (applied again: %r), the fixed point of the documented deletions is %r" % (bad or ("", "", "", "", "", "")),
+           site, witness=bad and "http://%s/" % bad[0], sample="%d (host, flags) cells" % n)
